@@ -73,6 +73,12 @@ def rpcRoundTrip (sides : List Nat) (fuel : Nat) (resDflt copiesFwd : Bool) (r h
 def moduleOf (fromPilotId : Bool) (side : Nat) : Nat :=
   if side = 0 then 0 else if fromPilotId then side else 1
 
+/-- `Session.close()` of side `c` publishes `msg` on its local bus (the `terminate` message, what its
+    managers send when they close).  With `stopFirst` the forwarders of `c` are gone by then: the message
+    stays on `c`.  Otherwise it travels like any other message. -/
+def closePub (stopFirst : Bool) (sides : List Nat) (fuel : Nat) (c : Nat) (msg : Msg) : List (Nat × Msg) :=
+  if stopFirst then [(c, msg)] else localPub sides fuel c msg
+
 /-- number of deliveries to the local subscribers of side `t` -/
 def deliveries (ds : List (Nat × Msg)) (t : Nat) : Nat :=
   (ds.filter (fun d => d.1 = t)).length
